@@ -22,6 +22,7 @@ import time
 
 import common
 import gen_c08
+import gen_c08k
 import gen_core
 import langrun
 from common import rng_for
@@ -53,9 +54,14 @@ META = {
 
 
 # ------------------------------------------------------------------------------------------------
+_MODEL_READY = []
+
+
 def model_run(sexprs, fuel=1500, timeout=600):
     """-> list of {src, ref:{expect,out}, mech:{...}, mechb:{...}} (bin/c08_model), chunked over the cores"""
-    common.ensure_model(PROP)
+    if not _MODEL_READY:
+        common.ensure_model(PROP)
+        _MODEL_READY.append(True)
     exe = common.model_bin(PROP)
 
     def one(chunk):
@@ -91,6 +97,14 @@ def judge(family, m, i):
     """-> list of (kind, why). kind: 'ref' = main differs from Ref, 'mech' = main differs from Mech,
     'refine' = Mech differs from Ref although the side condition holds, 'blocks' = the two Mech variants differ."""
     bad = []
+    if family == "kinds":
+        # CbCall: main == Ref; Mech (register discipline) == Ref is a theorem - a difference means the extracted code / driver is broken
+        why = langrun.compare(m["ref"], i) if i is not None else None
+        if why:
+            bad.append(("ref", why))
+        if (m["mech"]["expect"], m["mech"]["out"]) != (m["ref"]["expect"], m["ref"]["out"]):
+            bad.append(("refine", "extracted Mech (register) differs from extracted Ref (stack) on a CbCall program: contradicts kinds_mech_equals_ref"))
+        return bad
     if family == "reuse":
         why = langrun.compare(m["mech"], i) if i is not None else None
         if why:
@@ -143,12 +157,17 @@ def run(rep):
     if not cq["ok"]:
         rep.violation("proof", {"theorem": cq["failed_theorem"], "log": cq["log"][-3000:]},
                       "proof obligation %s no longer checks" % cq["failed_theorem"], True)
+    t0 = time.time()
     impl = common.build_impl("plain")
+    timing["build"] = round(time.time() - t0, 1)
     quick = tier == "quick"
+    t_gen = time.time()
     n_dir = 600 if quick else 6000
     n_lex = 1500 if quick else 20000
     n_reuse = 1200 if quick else 16000
     n_core = 500 if quick else 6000
+    n_kdir = 660 if quick else 6600          # CbCall directed: 6 shapes x 11 result kinds x 10 (100)
+    n_kinds = 1500 if quick else 20000       # CbCall random call graphs
 
     fams = collections.OrderedDict()
     feats = collections.Counter()
@@ -168,8 +187,18 @@ def run(rep):
     for k in range(n_reuse):
         sx, f = gen_c08.gen_program(rng_for(seed, "c08-reuse", k), gen_c08.Opts(reuse=True))
         reuse.append(sx); feats.update("reuse:" + x for x in f); tags["reuse"] += 1
+    kinds = []
+    kfeats = collections.Counter()
+    for k in range(n_kdir):
+        sx, tag = gen_c08k.directed(rng_for(seed, "c08k-dir", k), k)
+        kinds.append(sx); tags["kinds-directed-" + tag.split(":")[0]] += 1; kfeats["directed:" + tag] += 1
+    for k in range(n_kinds):
+        sx, f = gen_c08k.gen_program(rng_for(seed, "c08k-gen", k))
+        kinds.append(sx); kfeats.update(f); tags["kinds-random"] += 1
+    fams["kinds"] = kinds
     fams["lexical"] = lex
     fams["reuse"] = reuse
+    timing["generate"] = round(time.time() - t_gen, 1)
 
     evaluations = 0
     distinct, nontriv = set(), 0
@@ -220,6 +249,7 @@ def run(rep):
                 "distinct = distinct ASTs that are well-formed (the model neither Undef nor out of fuel); non-trivial = prints something or ends in a runtime error",
         "input_distribution": dict(tags), "model_outcomes": dict(outcomes),
         "features": dict(feats.most_common(60)),
+        "kinds_features": dict(sorted(kfeats.items())),
         "reuse_programs_where_mech_differs_from_ref": reuse_ref_differs,
         "samples": samples[:6],
         "disagreements": len(allbad) + len(cbad), "timing_s": timing,
@@ -227,16 +257,22 @@ def run(rep):
 
     budget = 60 if quick else 200
     for fam, sx, kind, why in allbad[:4]:
-        def still_bad(s, fam=fam, kind=kind):
+        m0, i0, _ = check_one(impl, fam, sx)
+
+        def still_bad(s, fam=fam, kind=kind, m0=m0, i0=i0):
             try:
                 m, i, b = check_one(impl, fam, s)
             except Exception:
                 return False
+            if fam == "kinds" and (m["ref"]["expect"] != m0["ref"]["expect"] or (i is None) != (i0 is None) or (i is not None and i["rc"] != i0["rc"])):
+                return False                  # stay on the same kind of failure
             if fam != "reuse" and m["ref"]["expect"] == "unbound":
                 return False
+            if fam == "kinds" and i is not None and ("error:" in i["err"] and "Expected" in i["err"]):
+                return False                  # a shrink step that no longer parses
             return any(k2 == kind for _, k2, _ in b)
         try:
-            small = langrun.shrink(sx, still_bad, budget=budget)
+            small = (gen_c08k.shrink if fam == "kinds" else langrun.shrink)(sx, still_bad, budget=budget)
         except Exception:
             small = sx
         m, i, b = check_one(impl, fam, small)
@@ -246,7 +282,8 @@ def run(rep):
                    "ref": m["ref"]["expect"], "ref_stdout": m["ref"]["out"], "mech": m["mech"]["expect"], "mech_stdout": m["mech"]["out"],
                    "impl_stdout": i["out"] if i else None, "impl_rc": i["rc"] if i else None, "impl_stderr": (i["err"][-600:] if i else None),
                    "main_vs_ref": ref_why}
-        text = {"ref": "main disagrees with the reference semantics on a call-graph program (%s)" % why,
+        text = {"ref": "main disagrees with the reference semantics on a %s (%s)" % (
+                    "CbCall program (results / parameters / locals of every kind, every call exit)" if fam == "kinds" else "call-graph program", why),
                 "mech": "main disagrees with the Mech model of find_variable / the call protocol (%s); main vs Ref: %s" % (why, ref_why or "equal"),
                 "refine": why}[kind]
         rep.violation(kind, payload, text, no_failing_input=(ref_why is None))
@@ -266,6 +303,7 @@ def run(rep):
                       "main disagrees with the reference semantics (%s; gen_core program)" % why)
 
     # known findings: replay each recorded program; the Mech must predict what main prints
+    t_kf = time.time()
     for f in common.known_findings(PROP):
         ok, rc, o, e = replay_finding(impl, f)
         if not ok:
@@ -280,6 +318,7 @@ def run(rep):
                                   "main fails known finding %s differently from what the Mech model (and its _refuted witness) predicts (%s)" % (f["id"], why))
         else:
             rep.notes.append("known finding %s no longer reproduces (fixed?)" % f["id"])
+    timing["known_findings"] = round(time.time() - t_kf, 1)
     rep.assumptions += [
         "programs on which the model reports Undef (signed 64-bit overflow of an intermediate) or runs out of fuel are not well-formed and are discarded (counted)",
         "lexical family: generated inside the side condition of dynamic_lookup_refines_lexical; reuse family: compared against Mech only (main is known to deviate from Ref there: known_findings/C08.json)",
@@ -291,7 +330,7 @@ def replay(path):
     data = json.load(open(path))
     c = data["case"]
     impl = common.build_impl("plain")
-    if "sexpr" in c and c.get("family") in ("lexical", "reuse"):
+    if "sexpr" in c and c.get("family") in ("lexical", "reuse", "kinds"):
         m, i, b = check_one(impl, c["family"], c["sexpr"])
         print(m["src"])
         print("Ref:  ", m["ref"]["expect"], repr(m["ref"]["out"]))
